@@ -53,6 +53,34 @@ claim("C20",
       "Trusted: sympy; assembly forwards **kwargs (C09/A1); a block depends only on its own shells (C11/G1).",
       "DESIGN.md 2.4, 2.6, 3 (C20)")
 
+claim("C09",
+      "axis-provenance abstract interpretation (type-and-effect system over numpy axes) + dispatch rules",
+      "An abstract interpreter runs construct_array_{cartesian,spherical,mix,lincomb} of the four assembly base classes on symbolic, "
+      "pairwise-distinct shells, with every array axis carrying a provenance tag (segment/Cartesian/spherical component of shell s "
+      "at kernel position k) instead of a size; two axes are interchangeable only if their tags agree, so one run covers all shapes. "
+      "For every coordinate-type pattern up to the shell bound it proves, per block: kernel called with the loop's shells and the "
+      "caller's kwargs; per index exactly one multiply by that shell's contraction norm on its own (M,L) axes, then - iff spherical "
+      "- one tensordot with that shell's own Cartesian->spherical matrix contracting its L axis; segment-major flattening; blocks "
+      "concatenated in shell-list order, reused blocks permuted like their grid index; lincomb applies T to every basis index in "
+      "place and dispatches by type; mix agrees with the dedicated paths. The 9 public wrappers + 2 special ones obey the dispatch "
+      "and keyword-forwarding rule. Numerical equality to rounding and the content of the transformation matrix (C10) are not decided.",
+      "Trusted: numpy axis semantics as modelled in gbsa/axtype.py; bound on the NUMBER of shells (sizes unbounded); kernels honour "
+      "contract K.",
+      "DESIGN.md 2.1, 3 (C09)")
+
+claim("C11",
+      "axis-provenance abstract interpretation (permutation-group check of block reuse) + adjoint classification of kernels",
+      "From the same abstract runs as C09: every grid cell is assigned exactly the kernel block of its own shells; a reused block has "
+      "its axes permuted exactly like its grid index and the permutation lies in the symmetry group of the array kind (S2 for "
+      "symmetric two-index, the 8-element group for the four-index array), the enumeration leaving no cell unassigned (G4). The "
+      "mirror operation of the symmetric fill is classified swap/adjoint from the conjugation flag carried by mirrored blocks and "
+      "must be adjoint whenever some kernel's phase class (real / imaginary-unit x real / complex, computed from its return "
+      "expression) is not real (G2); kernels of the other kinds are real (G3); kernels are static/class methods that read no "
+      "instance data and get exactly the loop's shells, so a block depends only on its own shells and reordering shells permutes "
+      "indices (G1). Equality of independently computed orientations is numerical and not decided.",
+      "Trusted: as C09; Hermiticity of momentum-type operators in exact arithmetic.",
+      "DESIGN.md 2.1, 2.8, 3 (C11)")
+
 na("C10", "quantifies over the numerical values of the transformation matrices (harmonicity, orthonormality, phases for every l<=10); "
           "no clause is visible in the shape of the code - deciding it means computing the matrices, which is not static analysis")
 na("C17", "positive semi-definiteness and Schwarz inequalities are numerical consequences of exact integrals; no structural clause exists")
